@@ -331,6 +331,8 @@ I5_SCRIPTS = {
     "helper-binds-a-module-name-only-in-nested-blocks": "level = 3\ndef pick(v):\n    if v > 1:\n        level = v / 4\n    else:\n        level = 0.5\n    return level * 2\nmon.write(pick(3))\nmon.write(level)\ndef acc(n):\n    for i in range(n):\n        level = i + 0.5\n    return level\nmon.write(acc(2))\nmon.write(level)\n",
     "helper-local-hoisted-with-the-type-of-a-module-name": "c = 1\nif c > 0:\n    y = 1\nmon.write(y)\ndef h(n):\n    k = 0\n    while k < n:\n        y = 0.5\n        k = k + 1\n    return y\nmon.write(h(2))\n",
     "helper-calls-a-helper-defined-later": "def outer(v):\n    return inner(v) + 1\ndef inner(v):\n    return v * 0.5\nmon.write(outer(3))\n",
+    "list-literal-with-an-int-before-the-first-float": "xs = [1, 2.5, 3]\nmon.write(xs[1])\nmon.write(xs[2] + 0.5)\ndef mid(v):\n    ys = [0, v, 0.25]\n    return ys[1] + ys[2]\nmon.write(mid(1.5))\nzs = [2, 4, 0.5, 8]\nmon.write(zs[2] * 3)\n",
+    "numeric-list-rebound-to-another-element-type": "xs = [1, 2]\nxs = [1.5, 2.5]\nmon.write(xs[0])\nmon.write(xs[1])\n",
     "dc-motor-queries-stored-in-variables": "from Reduino.Actuators import DCMotor\nm = DCMotor(2, 3, 5)\nm.set_speed(0.5)\nv = m.get_speed()\nw = m.get_applied_speed()\nhalf = v / 2\nmon.write(v)\nmon.write(w)\nmon.write(half)\n",
     "servo-queries-stored-in-variables": "from Reduino.Actuators import Servo\ns = Servo(9)\ns.write(45.5)\na = s.read()\nu = s.read_us()\nd = a + 0.25\nmon.write(a)\nmon.write(u)\nmon.write(d)\n",
     "queries-returned-from-helpers": "from Reduino.Actuators import DCMotor\nm = DCMotor(2, 3, 5)\ndef speed():\n    return m.get_speed()\ndef twice():\n    s = m.get_applied_speed()\n    return s * 2\nm.set_speed(0.25)\nmon.write(speed())\nmon.write(twice())\n",
